@@ -191,6 +191,18 @@ Definition extend (cs : csamples) (n : Z) : option csamples :=
                (cs_phase cs ++ repeat (last (cs_phase cs) zero) k)
                (cs_slots cs) (cs_open_off cs) (cs_init_tg cs)).
 
+(** [SequenceSamples.extend_duration]: the samples of every channel extended,
+    in order ([None] = one of them raised) *)
+Fixpoint extend_all (css : list csamples) (n : Z) : option (list csamples) :=
+  match css with
+  | [] => Some []
+  | cs :: r =>
+      match extend cs n, extend_all r n with
+      | Some c, Some r' => Some (c :: r')
+      | _, _ => None
+      end
+  end.
+
 (** * Well-formed channel timelines (what C02 gives for reachable schedules;
       evaluated on every schedule met by the correspondence) *)
 Fixpoint wf_pslots (from : Z) (l : list pslot) : bool :=
@@ -408,6 +420,7 @@ Definition FD := KDelay float.
 
 Definition f_get_samples := get_samples float PrimFloat.zero PrimFloat.add.
 Definition f_extend := extend float PrimFloat.zero.
+Definition f_extend_all := extend_all float PrimFloat.zero.
 Definition f_nested := nested float PrimFloat.zero fone PrimFloat.add PrimFloat.mul.
 Definition f_wf_chan := wf_chan float.
 Definition f_slm_mask := slm_mask float.
@@ -482,6 +495,15 @@ Definition f_render (chans : list fchan) (mask qids : list Z) (ext_ok ext_bad : 
       (let m := f_slm_mask chans mask in SL [sv_Zs (fst m); SZ (snd m)]);
       SL (map (fun cs => sv_arrs (f_extend cs ext_ok)) css);
       SL (map (fun cs => SB (match f_extend cs ext_bad with None => true | Some _ => false end)) css);
+      (* SequenceSamples.extend_duration(max_duration), twice *)
+      (let N := max_duration float css in
+       match f_extend_all css N with
+       | Some c1 => match f_extend_all c1 N with
+                    | Some c2 => SL (map (fun c => sv_arrs (Some c)) c2)
+                    | None => SB false
+                    end
+       | None => SB false
+       end);
       sv_nested qids (f_nested false chans mask);
       sv_nested qids (f_nested true chans mask);
       SL (map (fun c => SL (map (fun qw => SL [SZ (fst qw); SF (snd qw)]) (c_w float c))) chans)].
